@@ -66,6 +66,9 @@ def specs(tier):
                     continue
                 out.append({"shape": shape, "kind": "method", "name": "m", "members": list(combo), "invs": list(invs),
                             "inits": [None] * len(classes), "inv_mode": "AC"})
+                # ... and a CALL invariant with a SETATTR-only invariant as the LAST (outermost) one of the class
+                out.append({"shape": shape, "kind": "method", "name": "m", "members": list(combo), "invs": list(invs),
+                            "inits": [None] * len(classes), "inv_mode": "CS"})
     # special member names (only the meta-class, or object, provides them)
     for name in NAMES[1:]:
         for shape in ("single", "chain2", "two_bases"):
@@ -131,6 +134,11 @@ def render(spec):
                 w.append("class E_w_{0}(Exception): pass\ndef w_{0}(self):\n    LOG.append(('inv', 'w_{0}'))\n    return _truth('w_{0}')\n".format(cls))
                 w.append("@icontract.invariant(w_{0}, error=E_w_{0}, check_on=icontract.InvariantCheckEvent.CALL)\n".format(cls))
                 w.append("@icontract.invariant(v_{0}, error=E_v_{0}, check_on=icontract.InvariantCheckEvent.ALL)\n".format(cls))
+            elif spec.get("inv_mode") == "CS":
+                # the SETATTR-only invariant is the outermost decorator, i.e. the last invariant of the class
+                w.append("class E_s_{0}(Exception): pass\ndef s_{0}(self):\n    LOG.append(('inv', 's_{0}'))\n    return _truth('s_{0}')\n".format(cls))
+                w.append("@icontract.invariant(s_{0}, error=E_s_{0}, check_on=icontract.InvariantCheckEvent.SETATTR)\n".format(cls))
+                w.append("@icontract.invariant(v_{0}, error=E_v_{0})\n".format(cls))
             else:
                 w.append("@icontract.invariant(v_{0}, error=E_v_{0})\n".format(cls))
         w.append("class {}({}):\n".format(cls, ", ".join(bases) if bases else "icontract.DBC"))
@@ -225,8 +233,10 @@ class Ref:
         self._eff[c] = (groups, allposts)
         return self._eff[c]
 
-    def invariants(self, c):
-        pre = ("v_", "w_") if self.spec.get("inv_mode") == "AC" else ("v_",)
+    def invariants(self, c, event="call"):
+        """Invariants evaluated around a call; event="construct": all of them (also the SETATTR-only ones)."""
+        mode = self.spec.get("inv_mode")
+        pre = ("v_", "w_") if mode == "AC" else (("v_", "s_") if mode == "CS" and event == "construct" else ("v_",))
         return {p + k for k in self.mro[c] if self.inv[k] for p in pre}
 
     def init_contracts(self, c):
@@ -347,8 +357,8 @@ def check_spec(spec, acc):
                     bad = ("constructor_rejected", "exc={!r}".format(exc))
                 elif (not pre_ok or not post_ok) and exc is None:
                     bad = ("constructor_violation_missed", "truth={}".format(truth))
-                elif pre_ok and post_ok and {e[1] for e in log if e[0] == "inv"} != invs:
-                    bad = ("invariants_after_construction", "expected {} got {}".format(sorted(invs), [e for e in log if e[0] == "inv"]))
+                elif pre_ok and post_ok and {e[1] for e in log if e[0] == "inv"} != ref.invariants(cls, "construct"):
+                    bad = ("invariants_after_construction", "expected {} got {}".format(sorted(ref.invariants(cls, "construct")), [e for e in log if e[0] == "inv"]))
                 if bad:
                     acc.violation(core.Violation(PROP, bad[0], feats(spec, cls), bad[1] + " log={}".format(log),
                                                  spec={"spec": spec, "cls": cls, "truth": truth, "op": "init"}, script=src))
